@@ -95,7 +95,13 @@ func modelApply(root spec.V, p []PStep) applyModel {
 			return stop(oNotExists, "through-null")
 		}
 		if cur.T.K == spec.KDynamic {
-			// an unknown value of unknown type: nothing documented
+			if st.Attr != nil {
+				// GetAttrStep.Apply: the value "must be of an object type that
+				// has a value of that name"; a value whose type is not known
+				// is not of an object type, so the step names no member
+				return stop(oNotExists, "attr-of-dynamic")
+			}
+			// an index step into an unknown value of unknown type: nothing documented
 			return stop(oAbstain, "through-dynamic")
 		}
 		if st.Attr != nil {
